@@ -37,6 +37,7 @@ uint32_t fc_below(fc_ctx* c, uint32_t n);
 #define FC_AUTH   2u   /* authenticated unwrap: corrupted input must not release plaintext */
 #define FC_SLOW   4u   /* expensive call: sampled less often */
 #define FC_MATH   8u   /* arithmetic layer with caller-owned stack: C07 base mode only */
+#define FC_KEYOUT 16u  /* outputs are keys released by a verification: after a failed call each output is untouched or constant */
 #define FC_ANYERR ((err_t)0xFFFFFFFEu)  /* "any error code" in an expect list */
 /* soft variant: the header's \expect condition is of the hard-to-check kind
    (util.h: EXPECT conditions "may be violated ... programs must work stably"),
